@@ -18,7 +18,7 @@ RULE = (
 ASSUMPTIONS = [
     "input domain as in the property's quantifier; 'line breaks' read conservatively as every str.splitlines boundary; text encodable as UTF-8 (PYTHONUTF8=1)",
 ]
-REQUIRED_CLASSES = ["route=path", "route=stream", "key=default", "key=zero-tail", "payload.len%16==0", "payload.trailing00", "comps>=2", "cmac=off"]
+REQUIRED_CLASSES = ["route=path", "route=stream", "key=default", "key=zero-tail", "payload.len%16==0", "payload.trailing00", "comps>=2", "cmac=off", "payload>32KiB"]
 
 
 def check(case, rec):
@@ -111,9 +111,28 @@ def enum_many(tier, shard, nshards, rng):
         yield dict(comments=[("n", str(n))], comps=comps, key=bytes(rng.getrandbits(8) for _ in range(16)), route="path" if i % 2 else "stream", check_cmac=True)
 
 
+def enum_large(tier, shard, nshards, rng):
+    """CONSTRUCTED: files whose hex body is far beyond any plausible internal buffer size (32 KiB .. 1 MiB of payload) - quick-tier payloads
+    stop at 6 KiB, and a reader that works through the text in chunks shows only above its chunk size"""
+    sizes = [33000, 70001, 140000] if tier == "quick" else [33000, 65536, 70001, 140000, 300000, 1 << 20]
+    for i, n in enumerate(sizes):
+        if i % nshards != shard:
+            continue
+        blob = bytes(rng.getrandbits(8) for _ in range(n - 3)) + b"\x00\x00\x07"
+        yield dict(comments=[("FirmwareId", "1053")], comps=[dict(desc=[(0xC1, b"\x00")], blob=blob, actual_len=None if i % 2 else n - 1, enc=False),
+                                                              dict(desc=[], blob=b"tail", actual_len=None, enc=False)],
+                   key=bytes(rng.getrandbits(8) for _ in range(16)), route="path" if i % 2 else "stream", check_cmac=bool(i % 3))
+
+
+def check_large(case, rec):
+    rec.cls("payload>32KiB")
+    check(case, rec)
+
+
 def parts(tier):
     return [
         Part("roundtrip", check=check, strategy=strat, quick=(16, 400), thorough=(16, 2500)),
         Part("many_components", check=check, enum=enum_many, quick=(4, 0), thorough=(7, 0)),
+        Part("large", check=check_large, enum=enum_large, quick=(3, 0), thorough=(6, 0)),
         Part("grid", check=check, enum=enum_grid, quick=(8, 0), thorough=(16, 0), exhaustive=True),
     ]
